@@ -91,7 +91,10 @@ def rule_a(ctx):
         names = [c[0] for c in ch]
         probe_x = norm(expand(f.node, ast.parse(PROBE, mode="eval").body))
         ctx.ob(R, f.qname, f"restoration->model = {flag}: stages run in the documented order, each on the previous result", names == STAGES + tail and start in (PROBE, probe_x),
-               f"chain from `{start}`: {names}", f.node)
+               f"chain from `{start}`: {names}", f.node,
+               evidence=(sorted(names) == sorted(STAGES + tail) and names != STAGES + tail)     # all documented stages, in another order
+               or (bool(names) and set(names) < set(STAGES + tail) and [n_ for n_ in STAGES + tail if n_ in names] == names
+                   and set(STAGES + tail) <= {norm(c_.func)[5:] for c_ in ast.walk(f.node) if isinstance(c_, ast.Call) and norm(c_.func).startswith("self._")}))  # a stage is computed and its result dropped
         conv = [a for st, a in ch if st == "_convert_signal"]
         ctx.ob(R, f.qname, f"restoration->model = {flag}: the model also receives the original difference", bool(conv) and len(conv[0]) == 2 and conv[0][1] in (f"self._subtract_background({PROBE})", f"self._subtract_background({probe_x})"), str(conv)[:200], f.node)
         ctx.ob(R, f.qname, f"restoration->model = {flag}: the end of the chain is what is returned", e is not None, f"returned {RES}", f.node)
@@ -276,10 +279,11 @@ def rule_c(ctx):
                 return [norm(_ex(h.node, r.value)).replace(h.params[1], p) for r in ast.walk(h.node) if isinstance(r, ast.Return) and r.value is not None]
         return [txt]
     probes = [y for x in probes for y in through_helper(x)]
-    ctx.ob(R, f.qname, "working image is copy.deepcopy(probe) on every path", len(probes) >= 1 and all(v.startswith(f"copy.deepcopy({p})") for v in probes), str(probes), f.node)
+    ctx.ob(R, f.qname, "working image is copy.deepcopy(probe) on every path", len(probes) >= 1 and all(v.startswith(f"copy.deepcopy({p})") for v in probes), str(probes), f.node,
+           evidence=any(v.startswith((f"copy.copy({p})", f"{p}.copy()")) or v == p for v in probes))  # a shallow copy / the probe itself on some path: its array is shared
     E = Effects(m)
     ev = E.events_on(f, p)
-    ctx.ob(R, f.qname, "no mutation event is rooted at the probe argument", not ev, str(ev[:3]), f.node)
+    ctx.ob(R, f.qname, "no mutation event is rooted at the probe argument", not ev, str(ev[:3]), f.node, evidence=True)
     init = m.method(k, "__init__")
     b = [norm(s.value) for s in ast.walk(init.node) if isinstance(s, ast.Assign) and norm(s.targets[0]) == "self.base" and norm(s.value) != "None"]
     ctx.ob(R, init.qname, "baseline is stored as a copy", b == ["base[0].copy()"], str(b), init.node)
@@ -297,7 +301,8 @@ def rule_c(ctx):
                 sites[self_attr_(nd.stmt.targets[0])] = (nd, sorted(i for nme, i in RD.get(nd.id, ()) if nme == names[0]))
     ok = set(sites) == {"base", "_base_collection"} and sites["base"][1] == sites["_base_collection"][1]
     ctx.ob(R, init.qname, "self.base and self._base_collection are taken from the same definitions of the baseline list (after the float conversion)", ok,
-           str({k_: [g.nodes[i].text()[:50] for i in v[1]] for k_, v in sites.items()}), init.node)
+           str({k_: [g.nodes[i].text()[:50] for i in v[1]] for k_, v in sites.items()}), init.node,
+           evidence=set(sites) == {"base", "_base_collection"} and all(v[1] for v in sites.values()))  # both stores read the parameter's list, from different definitions of it
     ctx.floor(R, 1)
 
 
